@@ -204,4 +204,271 @@ theorem dispatch_q (P : Prog σ) (h : HId) (hq : Quiet P h) :
     exact (dispatchWith_q P h hq (Unanswered P h i) (some (dispatch P i)) (fun f hf e' => by cases hf; exact dispatch_q P h hq i e') _ e).weaken
       (fun x => x)
 
+/-! ### the engine survives the dispatch phase whatever the callbacks do -/
+
+theorem actStep_alive (P : Prog σ) (g : HId) (inner : Inner σ) (hin : ∀ f, inner = some f → ∀ e, (f e).1.alive = e.alive)
+    (a : Act) (e : Engine σ) : (actStep P g inner a e).1.alive = e.alive := by
+  cases a with
+  | unwrap =>
+    cases inner with
+    | none => rfl
+    | some f => exact hin f rfl e
+  | retryOrRaise =>
+    simp only [actStep]
+    split <;> rfl
+  | markRemove => rfl
+  | send h d => rfl
+  | create h => rfl
+  | add h => rfl
+
+theorem runActs_alive (P : Prog σ) (g : HId) (inner : Inner σ) (hin : ∀ f, inner = some f → ∀ e, (f e).1.alive = e.alive) :
+    ∀ (acts : List Act) (e : Engine σ), (runActs P g inner acts e).1.alive = e.alive := by
+  intro acts
+  induction acts with
+  | nil => intro e; rfl
+  | cons a rest ih =>
+    intro e
+    unfold runActs
+    by_cases hr : (actStep P g inner a e).2.2 = true
+    · simp only [hr, if_true]; exact actStep_alive P g inner hin a e
+    · rw [if_neg hr]; simp only; rw [ih, actStep_alive P g inner hin a e]
+
+theorem invoke_alive (P : Prog σ) (inner : Inner σ) (hin : ∀ f, inner = some f → ∀ e, (f e).1.alive = e.alive)
+    (g : HId) (d : Dgram) (e : Engine σ) : (invoke P inner g d e).1.alive = e.alive := by
+  unfold invoke
+  simp only
+  split
+  · rw [runActs_alive P g inner hin]
+  · rw [runActs_alive P g inner hin]; simp only; rw [runActs_alive P g inner hin]
+
+theorem dispatchWith_alive (P : Prog σ) (inner : Inner σ) (hin : ∀ f, inner = some f → ∀ e, (f e).1.alive = e.alive)
+    (d : Dgram) (e : Engine σ) : (dispatchWith P inner d e).1.alive = e.alive := by
+  unfold dispatchWith
+  split
+  · rfl
+  · exact invoke_alive P inner hin _ d e
+
+theorem dispatch_alive (P : Prog σ) : ∀ (d : Dgram) (e : Engine σ), (dispatch P d e).1.alive = e.alive
+  | .raw v, e => by unfold dispatch; exact dispatchWith_alive P none (fun f hf => by cases hf) _ e
+  | .pkt i, e => by
+    unfold dispatch
+    exact dispatchWith_alive P (some (dispatch P i)) (fun f hf e' => by cases hf; exact dispatch_alive P i e') _ e
+
+/-! ### one iteration, phase by phase (the order is the generated `threadPhaseCodes`) -/
+
+def afterSend (P : Prog σ) (e : Engine σ) (env : Env) : Engine σ × List Out :=
+  processSend P { e with clock := e.clock + env.dtPre }
+
+def afterRecv (P : Prog σ) (e : Engine σ) (env : Env) : Engine σ × List Out :=
+  match env.dgram with
+  | none => ({ (afterSend P e env).1 with clock := (afterSend P e env).1.clock + env.dtRecv }, [])
+  | some d => dispatch P d { (afterSend P e env).1 with clock := (afterSend P e env).1.clock + env.dtRecv }
+
+def afterLoop (P : Prog σ) (e : Engine σ) (env : Env) : Engine σ × List Out :=
+  loopAll P (afterRecv P e env).1.handlers (afterRecv P e env).1
+
+theorem afterSend_alive (P : Prog σ) (e : Engine σ) (env : Env) : (afterSend P e env).1.alive = e.alive := by
+  unfold afterSend; rw [processSend_alive]
+
+theorem afterRecv_alive (P : Prog σ) (e : Engine σ) (env : Env) : (afterRecv P e env).1.alive = e.alive := by
+  unfold afterRecv
+  split
+  · exact afterSend_alive P e env
+  · rw [dispatch_alive]; exact afterSend_alive P e env
+
+theorem runPhases_cons_alive (P : Prog σ) (env : Env) (p : Nat) (ps : List Nat) (e : Engine σ) (ha : e.alive = true) :
+    runPhases P env (p :: ps) e =
+      ((runPhases P env ps (runPhase P env p e).1).1, (runPhase P env p e).2 ++ (runPhases P env ps (runPhase P env p e).1).2) := by
+  rw [runPhases]; simp [ha]
+
+theorem runPhases_dead (P : Prog σ) (env : Env) (ps : List Nat) (e : Engine σ) (ha : e.alive = false) :
+    runPhases P env ps e = (e, []) := by
+  cases ps with
+  | nil => rfl
+  | cons p ps => rw [runPhases]; simp [ha]
+
+theorem engineIter_unfold (P : Prog σ) (e : Engine σ) (env : Env) (ha : e.alive = true) :
+    engineIter P e env =
+      if (afterLoop P e env).1.alive = true then
+        ((loopFuncPhase P (cleanup (afterLoop P e env).1)).1,
+         (afterSend P e env).2 ++ ((afterRecv P e env).2 ++ ((afterLoop P e env).2 ++ (loopFuncPhase P (cleanup (afterLoop P e env).1)).2)))
+      else ((afterLoop P e env).1, (afterSend P e env).2 ++ ((afterRecv P e env).2 ++ (afterLoop P e env).2)) := by
+  have h0 : (afterSend P e env).1.alive = true := by rw [afterSend_alive]; exact ha
+  have h1 : (afterRecv P e env).1.alive = true := by rw [afterRecv_alive]; exact ha
+  have e0 : runPhase P env 0 { e with clock := e.clock + env.dtPre } = afterSend P e env := rfl
+  have e1 : runPhase P env 1 (afterSend P e env).1 = afterRecv P e env := by
+    unfold runPhase afterRecv
+    cases env.dgram <;> rfl
+  have e2 : runPhase P env 2 (afterRecv P e env).1 = afterLoop P e env := rfl
+  have e3 : runPhase P env 3 (afterLoop P e env).1 = (cleanup (afterLoop P e env).1, []) := rfl
+  have e4 : runPhase P env 4 (cleanup (afterLoop P e env).1) = loopFuncPhase P (cleanup (afterLoop P e env).1) := rfl
+  unfold engineIter
+  rw [if_neg (by simp [ha]), threadPhaseCodes_eq]
+  rw [runPhases_cons_alive P env 0 _ { e with clock := e.clock + env.dtPre } ha, e0, runPhases_cons_alive P env 1 _ _ h0, e1, runPhases_cons_alive P env 2 _ _ h1, e2]
+  by_cases h2 : (afterLoop P e env).1.alive = true
+  · have h3 : (cleanup (afterLoop P e env).1).alive = true := h2
+    rw [if_pos h2, runPhases_cons_alive P env 3 _ _ h2, e3, runPhases_cons_alive P env 4 _ _ h3, e4]
+    simp [runPhases]
+  · have h2' : (afterLoop P e env).1.alive = false := by simpa using h2
+    rw [if_neg h2, runPhases_dead P env _ _ h2']
+    simp
+
+/-! ### phase 2 seen from one handler whose on_retry_failed is the default -/
+
+/-- has_timedout at clock `c` for timeout `T` -/
+def expired (T c : Time) (s : HState) : Prop := 0 < T ∧ T < c - s.start
+
+instance (T c : Time) (s : HState) : Decidable (expired T c s) := by unfold expired; exact inferInstance
+
+/-- GeckoUdpProtocolHandler.loop on the handler's own state, default on_retry_failed -/
+def tick (T c : Time) (s : HState) : HState :=
+  if expired T c s then
+    (if s.retries = 0 then { s with remove := true } else { s with retries := s.retries - 1, start := c })
+  else s
+
+/-- the `queue_send` that `loop` makes -/
+def tickEnq (h : HId) (T c : Time) (s : HState) : List (HId × Option Dest) :=
+  if expired T c s ∧ s.retries ≠ 0 then [(h, s.lastDest)] else []
+
+theorem timedOut_iff (P : Prog σ) (h : HId) (e : Engine σ) :
+    timedOut P h e = true ↔ expired (P.spec h).timeout e.clock (e.hs h) := by
+  unfold timedOut expired
+  simp only [timeoutStrict_eq, if_true]
+  by_cases hT : (P.spec h).timeout > 0
+  · simp [hT]
+  · simp [hT]
+
+theorem tick_idem (T c : Time) (s : HState) : tick T c (tick T c s) = tick T c s := by
+  unfold tick
+  by_cases he : expired T c s
+  · simp only [he, if_true]
+    by_cases hr : s.retries = 0
+    · simp only [hr, if_true]
+      have : expired T c { s with remove := true } := he
+      simp [this, hr]
+    · simp only [hr, if_false]
+      have : ¬ expired T c { s with retries := s.retries - 1, start := c } := by
+        unfold expired; simp
+      simp [this]
+  · simp [he]
+
+theorem tickEnq_tick (h : HId) (T c : Time) (s : HState) : tickEnq h T c (tick T c s) = [] := by
+  unfold tickEnq tick
+  by_cases he : expired T c s
+  · simp only [he, if_true]
+    by_cases hr : s.retries = 0
+    · simp [hr]
+    · simp only [hr, if_false]
+      have : ¬ expired T c { s with retries := s.retries - 1, start := c } := by
+        unfold expired; simp
+      simp [this]
+  · simp [he]
+
+theorem handlerLoop_self (P : Prog σ) (h : HId) (hf : (P.spec h).onFail = .remove) (e : Engine σ) :
+    (handlerLoop P h e).1.hs h = tick (P.spec h).timeout e.clock (e.hs h) ∧
+    enqsOf h (handlerLoop P h e).2.1 = tickEnq h (P.spec h).timeout e.clock (e.hs h) ∧
+    (handlerLoop P h e).2.2 = false := by
+  unfold handlerLoop tick tickEnq
+  by_cases ht : timedOut P h e = true
+  · have he := (timedOut_iff P h e).1 ht
+    simp only [ht, Bool.not_true, Bool.false_eq_true, if_false, he, if_true, true_and]
+    by_cases hr : (e.hs h).retries = 0
+    · simp [hr, hf, upd_self, enqsOf, enqs]
+    · simp [hr, Engine.enq, upd_self, enqsOf, enqs]
+  · have he : ¬ expired (P.spec h).timeout e.clock (e.hs h) := fun x => ht ((timedOut_iff P h e).2 x)
+    have ht' : timedOut P h e = false := by simpa using ht
+    simp [ht', he, enqsOf, enqs]
+
+theorem handlerLoop_other (P : Prog σ) (h g : HId) (hne : h ≠ g) (e : Engine σ) :
+    (handlerLoop P g e).1.hs h = e.hs h ∧ enqsOf h (handlerLoop P g e).2.1 = [] := by
+  have hb : (g == h) = false := by simpa using fun x : g = h => hne x.symm
+  unfold handlerLoop
+  split
+  · exact ⟨rfl, rfl⟩
+  · split
+    · split
+      · exact ⟨rfl, rfl⟩
+      · exact ⟨upd_other _ _ _ _ hne, rfl⟩
+      · exact ⟨rfl, rfl⟩
+    · exact ⟨by simp only [Engine.enq]; exact upd_other _ _ _ _ hne, by simp [enqsOf, enqs, hb]⟩
+
+theorem handlerLoop_misc (P : Prog σ) (g : HId) (e : Engine σ) :
+    (handlerLoop P g e).1.clock = e.clock ∧ (handlerLoop P g e).1.handlers = e.handlers ∧ (handlerLoop P g e).1.alive = e.alive ∧
+    ((P.spec g).onFail ≠ .raises → (handlerLoop P g e).2.2 = false) := by
+  unfold handlerLoop
+  split
+  · exact ⟨rfl, rfl, rfl, fun _ => rfl⟩
+  · split
+    · split
+      · exact ⟨rfl, rfl, rfl, fun _ => rfl⟩
+      · exact ⟨rfl, rfl, rfl, fun _ => rfl⟩
+      · rename_i hx; exact ⟨rfl, rfl, rfl, fun hn => absurd hx hn⟩
+    · exact ⟨rfl, rfl, rfl, fun _ => rfl⟩
+
+/-- no on_retry_failed callback raises -/
+def NoRaise (P : Prog σ) : Prop := ∀ g, (P.spec g).onFail ≠ .raises
+
+theorem loopAll_misc (P : Prog σ) (hnr : NoRaise P) : ∀ (l : List HId) (e : Engine σ),
+    (loopAll P l e).1.clock = e.clock ∧ (loopAll P l e).1.handlers = e.handlers ∧ (loopAll P l e).1.alive = e.alive
+  | [], e => ⟨rfl, rfl, rfl⟩
+  | g :: rest, e => by
+    obtain ⟨hc, hh, ha, hd⟩ := handlerLoop_misc P g e
+    have hd' := hd (hnr g)
+    unfold loopAll
+    simp only [hd', Bool.false_eq_true, if_false]
+    obtain ⟨c2, h2, a2⟩ := loopAll_misc P hnr rest (handlerLoop P g e).1
+    exact ⟨by rw [c2, hc], by rw [h2, hh], by rw [a2, ha]⟩
+
+theorem loopAll_h (P : Prog σ) (h : HId) (hf : (P.spec h).onFail = .remove) (hnr : NoRaise P) : ∀ (l : List HId) (e : Engine σ),
+    (loopAll P l e).1.hs h = (if h ∈ l then tick (P.spec h).timeout e.clock (e.hs h) else e.hs h) ∧
+    enqsOf h (loopAll P l e).2 = (if h ∈ l then tickEnq h (P.spec h).timeout e.clock (e.hs h) else [])
+  | [], e => by simp [loopAll, enqsOf, enqs]
+  | g :: rest, e => by
+    obtain ⟨hc, _, _, hd⟩ := handlerLoop_misc P g e
+    have hd' := hd (hnr g)
+    have ih := loopAll_h P h hf hnr rest (handlerLoop P g e).1
+    unfold loopAll
+    simp only [hd', Bool.false_eq_true, if_false]
+    rw [enqsOf_append, ih.1, ih.2, hc]
+    by_cases hg : h = g
+    · subst hg
+      obtain ⟨s1, s2, _⟩ := handlerLoop_self P h hf e
+      rw [s1, s2]
+      by_cases hm : h ∈ rest
+      · simp [hm, tick_idem, tickEnq_tick]
+      · simp [hm]
+    · obtain ⟨s1, s2⟩ := handlerLoop_other P h g hg e
+      rw [s1, s2]
+      have : (h ∈ g :: rest) ↔ h ∈ rest := by simp [hg]
+      by_cases hm : h ∈ rest
+      · simp [hm, hg]
+      · simp [hm, hg]
+
+/-! ### phase 0 seen from one handler -/
+
+theorem processSend_h (P : Prog σ) (h : HId) (e : Engine σ) :
+    ((processSend P e).1.hs h = e.hs h ∨
+      ∃ d, (h, some d) ∈ e.sendq ∧ (processSend P e).1.hs h = { e.hs h with lastDest := some d }) ∧
+    (∀ x ∈ (processSend P e).1.sendq, x ∈ e.sendq) ∧ enqs (processSend P e).2 = [] := by
+  unfold processSend
+  split
+  · exact ⟨Or.inl rfl, fun x hx => hx, rfl⟩
+  · unfold popSend
+    simp only [sendPopsFront_eq, if_true]
+    cases hq : e.sendq with
+    | nil => exact ⟨Or.inl rfl, fun x hx => by simp_all, rfl⟩
+    | cons x rest =>
+      obtain ⟨g, dest⟩ := x
+      simp only
+      split
+      · exact ⟨Or.inl rfl, fun x hx => by simp [hx], rfl⟩
+      · cases dest with
+        | none => exact ⟨Or.inl rfl, fun x hx => by simp [hx], rfl⟩
+        | some d =>
+          simp only
+          refine ⟨?_, fun x hx => by simp [hx], rfl⟩
+          by_cases hg : h = g
+          · subst hg; right; exact ⟨d, by simp, by rw [upd_self]⟩
+          · left; exact upd_other _ _ _ _ hg
+
 end GeckoModel.Threaded
